@@ -1,8 +1,9 @@
 (* stdin: one case per line  "<id> <type> <hash kind> <ctorA> <ctorB> <op> <op> ..."
    ctor: d (default) | <n>;  ops: e<k>:<v> f<k> s i c r<n> h<n> ab ba mv sw
-   prints "<id> <per-op observations> # defect_at=<i> maxchain=<n>": the part before " # " is the same canonical
-   line as harness/seq/c18_hash_table.cpp prints; defect_at = index of the first op after which a container has a
-   placeholder (default-constructed) head with tables chained behind it (-1 never), maxchain = longest chain.
+   prints "<id> <per-op observations> # dummy_chain_at=<i> maxchain=<n>": the part before " # " is the same canonical
+   line as harness/seq/c18_hash_table.cpp prints; dummy_chain_at = index of the first op after which a container has a
+   placeholder (default-constructed) head with tables chained behind it (-1 never; coverage statistic only),
+   maxchain = longest chain.
    hash kinds (keys are < 2^20): 0 identity, 1 k mod 3, 2 k*128 (checker always 0), 3 k mod 128 (base always 0),
    4 (k * 2654435761) mod 2^32, 5 constant 0 *)
 let hash_of kind : z -> z = fun k ->
@@ -40,11 +41,11 @@ let () = iter_lines (fun line ->
     let h = hash_of (int_of_string hk) in
     let st = ref (init (ctor ca) (ctor cb)) in
     let buf = Buffer.create 256 in
-    let defect_at = ref (-1) and maxchain = ref 0 and opi = ref 0 in
+    let dummy_chain_at = ref (-1) and maxchain = ref 0 and opi = ref 0 in
     let look (c : chain) =
       let n = List.length c.rest in
       if n > !maxchain then maxchain := n;
-      if c.head.dummy && n > 0 && !defect_at < 0 then defect_at := !opi in
+      if c.head.dummy && n > 0 && !dummy_chain_at < 0 then dummy_chain_at := !opi in
     List.iter (fun w ->
       let o = parse_op w in
       let (s', out) = step h !st o in
@@ -61,5 +62,5 @@ let () = iter_lines (fun line ->
           "i=" ^ String.concat "," (List.map (fun (k, v) -> Printf.sprintf "%d:%d" k v) l)
         | OUnit -> Printf.sprintf "%s:b%d" w (int_of_z (bcount a.head)) in
       Buffer.add_char buf ' '; Buffer.add_string buf obs) ops;
-    Printf.printf "%s%s # defect_at=%d maxchain=%d\n" id (Buffer.contents buf) !defect_at !maxchain
+    Printf.printf "%s%s # dummy_chain_at=%d maxchain=%d\n" id (Buffer.contents buf) !dummy_chain_at !maxchain
   | _ -> ())
